@@ -153,4 +153,102 @@ theorem authenticateReq_good {cfg : Config} {d : Option (Bytes × Nat)} {x : Ctx
             simp only [Option.map_some, hqc]
             rfl
 
+/-! ## unfetch -/
+
+theorem removeFetcher_mem {tbl : List (Option FetchKey)} {fk0 fk : FetchKey} (h : some fk ∈ removeFetcher tbl fk0) :
+    some fk ∈ tbl ∧ fk ≠ fk0 := by
+  unfold removeFetcher at h
+  obtain ⟨s, hs, he⟩ := List.mem_map.mp h
+  split at he
+  · cases he
+  · rename_i hne
+    subst he
+    refine ⟨hs, ?_⟩
+    intro h; subst h
+    simp at hne
+
+def dropG (fk0 : FetchKey) (q : Peer) : Peer :=
+  if q.conn == fk0.peer then
+    { q with elements := q.elements.map (fun e => { e with fetchers := removeFetcher e.fetchers fk0 }),
+             fetches := q.fetches.filter (fun f => f.uid != fk0.uid) }
+  else { q with elements := q.elements.map (fun e => { e with fetchers := removeFetcher e.fetchers fk0 }) }
+
+theorem dropFetch_eq (ps : List Peer) (fk0 : FetchKey) : dropFetch ps fk0 = ps.map (dropG fk0) := by
+  unfold dropFetch
+  rw [updatePeer_eq_map, mapElements_eq_map, List.map_map]
+  apply List.map_congr_left
+  intro q _
+  simp only [Function.comp, dropG]
+  split <;> rfl
+
+theorem dropG_keepsA (fk0 : FetchKey) : KeepsA (dropG fk0) := by
+  intro q
+  unfold dropG
+  split <;> exact ⟨rfl, rfl, rfl, rfl, rfl⟩
+
+theorem dropG_elements (fk0 : FetchKey) (q : Peer) :
+    (dropG fk0 q).elements = q.elements.map (fun e => { e with fetchers := removeFetcher e.fetchers fk0 }) := by
+  unfold dropG
+  split <;> rfl
+
+theorem dropG_fuids (fk0 : FetchKey) (q : Peer) (u : Nat) (hu : u ∈ fuids q) (hne : q.conn = fk0.peer → u ≠ fk0.uid) :
+    u ∈ fuids (dropG fk0 q) := by
+  unfold dropG
+  split
+  · rename_i hc
+    have hc' : q.conn = fk0.peer := by simpa using hc
+    unfold fuids at hu ⊢
+    obtain ⟨f, hf, rfl⟩ := List.mem_map.mp hu
+    refine List.mem_map.mpr ⟨f, ?_, rfl⟩
+    simp only [List.mem_filter]
+    exact ⟨hf, by simpa using hne hc'⟩
+  · exact hu
+
+theorem FInv.dropFetch {cfg : Config} {s s' : State} (h : FInv cfg s) (fk0 : FetchKey)
+    (hs : s'.peers = dropFetch s.peers fk0) : FInv cfg s' := by
+  rw [dropFetch_eq] at hs
+  constructor
+  · rw [hs, map_conn_of_keepsA (dropG_keepsA fk0)]; exact h.nodup
+  · intro o ho e he fk hfk
+    rw [hs] at ho ⊢
+    obtain ⟨o0, ho0, rfl⟩ := List.mem_map.mp ho
+    rw [dropG_elements] at he
+    obtain ⟨e0, he0, rfl⟩ := List.mem_map.mp he
+    obtain ⟨hmem, hne⟩ := removeFetcher_mem hfk
+    refine (h.fetchers o0 ho0 e0 he0 fk hmem).transfer ?_
+    intro q hq huid
+    refine ⟨dropG fk0 q, ?_, ?_, (dropG_keepsA fk0 q).2.2.1⟩
+    · rw [findPeer_map (dropG_keepsA fk0).conn, hq]; rfl
+    · apply dropG_fuids fk0 q _ huid
+      intro hc hu
+      apply hne
+      have := findPeer_conn hq
+      cases fk; cases fk0
+      simp_all
+
+theorem unfetchReq_good {cfg : Config} {d : Option (Bytes × Nat)} {x : Ctx} {p : Peer} {req : Json}
+    (h : FInv cfg x.st) : Good cfg d p.conn req x (unfetchReq x p req) := by
+  unfold unfetchReq
+  cases hg : getFetchId req false with
+  | err r =>
+    refine Good.same h ?_
+    unfold getFetchId at hg
+    split at hg
+    · injection hg with hg; subst hg; exact fun j hj => idFirst_errorFromRequest hj
+    · split at hg
+      · injection hg with hg; subst hg; exact fun j hj => idFirst_errorFromRequest hj
+      · split at hg
+        · injection hg with hg; subst hg; exact fun j hj => idFirst_errorFromRequest hj
+        · cases hg
+        · cases hg
+        · injection hg with hg; subst hg; exact fun j hj => idFirst_errorFromRequest hj
+  | ok params fid =>
+    simp only
+    split
+    · exact Good.err h _ _ _
+    · rename_i f _
+      refine ⟨h.dropFetch ⟨p.conn, f.uid⟩ rfl, OutExt.refl _ _, fun _ hj => idFirst_successFromRequest hj, Or.inl ?_⟩
+      refine AuthSame.of_map (dropG_keepsA ⟨p.conn, f.uid⟩) rfl ?_
+      exact dropFetch_eq _ _
+
 end Cjet.Daemon.C08
